@@ -55,6 +55,18 @@ func (tx *Tx) check(cfg checkConfig, ch chan error) {
 		freed[id] = true
 	}
 
+	// The in-memory free list may have merged duplicates away while loading
+	// (hashmap backend), so look at the persisted list as well.
+	if tx.meta.Freelist() != common.PgidNoFreelist {
+		persisted := make(map[common.Pgid]bool)
+		for _, id := range tx.page(tx.meta.Freelist()).FreelistPageIds() {
+			if persisted[id] {
+				ch <- fmt.Errorf("page %d: already freed", id)
+			}
+			persisted[id] = true
+		}
+	}
+
 	// Track every reachable page.
 	reachable := make(map[common.Pgid]*common.Page)
 	reachable[0] = tx.page(0) // meta0
